@@ -20,6 +20,7 @@ func init() {
 			{ID: "C16-R3", Doc: "unencodable arguments fail fast and fatally", Run: c16r3},
 			{ID: "C16-R4", Doc: "registry check precedes use of a machine", Run: c16r4},
 			{ID: "C16-R5", Doc: "a worker receives invocations dependencies-first", Run: c16r5},
+			{ID: "C16-R6", Doc: "a Func records the location of the user's call (runtime.Caller depth matches the distance from the API)", Run: c16r6},
 		},
 	})
 }
@@ -453,6 +454,49 @@ func c16r3(c *RC) {
 		return true
 	})
 	c.Check(arm, rq+"|compile-loop-fatal-arm", pr.Pos(run.Body.Pos()), "the compile loop no longer treats a Fatal+Invalid compile error as a task error")
+	// an error the worker returned from Worker.Compile is the invocation's
+	// fault whatever its severity (argument decoding, invocation references,
+	// invoking the Func): the arm testing errors.Remote errors the task with no
+	// further condition
+	remote := false
+	ast.Inspect(run.Body, func(n ast.Node) bool {
+		cc, ok := n.(*ast.CaseClause)
+		if !ok || len(cc.List) != 1 {
+			return true
+		}
+		k, ok := ast.Unparen(cc.List[0]).(*ast.CallExpr)
+		if !ok || run.Pkg.CalleeName(k) != "github.com/grailbio/base/errors.Is" || len(k.Args) != 2 || !strings.HasSuffix(expr(k.Args[0]), "errors.Remote") {
+			return true
+		}
+		// only the arm of the switch that follows b.compile
+		inCompile := false
+		for _, anc := range pathTo(run.Body, cc) {
+			if sw, ok := anc.(*ast.SwitchStmt); ok {
+				for _, p := range pathTo(run.Body, sw) {
+					if f, ok := p.(*ast.ForStmt); ok {
+						for _, kk := range callsIn(f.Body) {
+							if run.Pkg.CalleeName(kk) == "exec.(*bigmachineExecutor).compile" {
+								inCompile = true
+							}
+						}
+					}
+				}
+			}
+		}
+		if !inCompile {
+			return true
+		}
+		for _, st := range cc.Body {
+			if es, ok := st.(*ast.ExprStmt); ok {
+				if kk, ok := es.X.(*ast.CallExpr); ok && strings.HasSuffix(run.Pkg.CalleeName(kk), "(*Task).Errorf") {
+					remote = true
+				}
+			}
+		}
+		return true
+	})
+	c.Check(remote, rq+"|worker-compile-errors-are-task-errors", pr.Pos(run.Body.Pos()),
+		"the compile loop no longer errors the task for every error returned by the worker's Compile (an arm testing exactly errors.Is(errors.Remote, err)): an argument that cannot be decoded on the worker, or an invalid invocation reference, makes the task LOST and it is resubmitted until it has been lost five times, instead of failing at once with the cause")
 	// checkInvocationReader drains the reader and returns its error
 	if ck := c.MustFn("exec.(*bigmachineExecutor).checkInvocationReader"); ck != nil {
 		drains := false
